@@ -16,7 +16,7 @@ from vlib import gen
 from vlib.extract import Package
 
 SDL = """
-type Query { ping(id: ID, n: Int, tags: [String!], f: Filter, e: Color, fs: [Filter!], camelCase: Int, in: String, _under: Int, opt: [[Int]], req: [Int], rec: Rec, d: Date, b: Boolean, ni: Int, mix: [Filter], grid: [[Filter!]]): Int }
+type Query { ping(id: ID, n: Int, tags: [String!], f: Filter, e: Color, fs: [Filter!], camelCase: Int, in: String, _under: Int, opt: [[Int]], req: [Int], rec: Rec, d: Date, b: Boolean, ni: Int, mix: [Filter], grid: [[Filter!]], Query: String, Variables: Int, _response: String, DATA: Int, operationName: String): Int }
 enum Color { RED GREEN in }
 scalar Date
 input Filter { a: Int! = 3, b: [Filter!], c: Color = GREEN, camelCase: String, in: Int }
@@ -29,6 +29,8 @@ query V3($camelCase: Int, $in: String, $_under: Int) { ping(camelCase: $camelCas
 query V4($opt: [[Int]], $req: [Int]!, $rec: Rec) { ping(opt: $opt, req: $req, rec: $rec) }
 query V5($d: Date, $b: Boolean!, $ni: Int! = 7) { ping(d: $d, b: $b, ni: $ni) }
 query V6($mix: [Filter], $grid: [[Filter!]]) { ping(mix: $mix, grid: $grid) }
+query V7($Query: String, $Variables: Int, $_response: String) { ping(Query: $Query, Variables: $Variables, _response: $_response) }
+query V8($DATA: Int, $operationName: String) { ping(DATA: $DATA, operationName: $operationName) }
 """
 OMIT, NULL = "__omit__", "__null__"
 
@@ -52,6 +54,11 @@ VALUES = {
     "d": [("s", lambda p: "2020-01-01", "2020-01-01"), ("o", lambda p: {"k": [1]}, {"k": [1]})],
     "b": [("t", lambda p: True, True), ("f", lambda p: False, False)],
     "ni": [("i", lambda p: 9, 9)],
+    "Query": [("s", lambda p: "needle", "needle")],
+    "Variables": [("i", lambda p: 4, 4)],
+    "_response": [("s", lambda p: "r", "r")],
+    "DATA": [("i", lambda p: 6, 6)],
+    "operationName": [("s", lambda p: "other", "other")],
     "mix": [("null_first", lambda p: [None, p.Filter(a=2)], [None, {"a": 2}]), ("model_last", lambda p: [p.Filter(), None, p.Filter(c=None)], [{}, None, {"c": None}])],
     "grid": [("nested", lambda p: [[p.Filter(a=1)], None, [p.Filter(a=2), p.Filter()]], [[{"a": 1}], None, [{"a": 2}, {}]]), ("empty_inner", lambda p: [[], [p.Filter(a=3)]], [[], [{"a": 3}]])],
 }
